@@ -515,7 +515,25 @@ func deriveCtors(repo string) ([]byte, error) {
 		}
 		body.WriteString("\n\n")
 	}
-	body.WriteString("// ServeGroupInboundForTest exposes the group layer on an arbitrary source channel.\nfunc ServeGroupInboundForTest(inbound <-chan cemi.Message, outbound chan<- GroupEvent) {\n\tserveGroupInbound(inbound, outbound)\n}\n")
+	// the group layer's worker: whatever function NewGroupTunnel starts with `go f(source, sink)`
+	worker := ""
+	for _, fd := range decls {
+		if fd.Name.Name != "NewGroupTunnelOnSocket" {
+			continue
+		}
+		ast.Inspect(fd.Body, func(n ast.Node) bool {
+			if gs, ok := n.(*ast.GoStmt); ok && len(gs.Call.Args) == 2 {
+				if id, ok := gs.Call.Fun.(*ast.Ident); ok {
+					worker = id.Name
+				}
+			}
+			return true
+		})
+	}
+	if worker == "" {
+		return nil, fmt.Errorf("NewGroupTunnel does not start its worker with `go f(source, sink)`")
+	}
+	body.WriteString("// ServeGroupInboundForTest exposes the group layer on an arbitrary source channel.\nfunc ServeGroupInboundForTest(inbound <-chan cemi.Message, outbound chan<- GroupEvent) {\n\t" + worker + "(inbound, outbound)\n}\n")
 	out.WriteString("// Code generated by /verif/mcgen from the exported constructors of package knx. DO NOT EDIT.\n\npackage knx\n\nimport (\n")
 	src := body.String()
 	imports["cemi"], imports["knxnet"] = modPath+"/knx/cemi", modPath+"/knx/knxnet"
